@@ -85,6 +85,7 @@ def main(prop, tier, seed):
                         shapes=nshape, by_kind=by_kind, depth='<=3 (quick) / <=4 (thorough)', seed=seed)]
     if prop == 'C09':
         errpath.safe(errpath.add_enumerators, rep, 'C09.errpath')
+        errpath.safe(errpath.add_finders_o1, rep, 'C09.errpath')      # the mapping finder under the constant-time strategy (+ bounded read count)
     if prop == 'C01':
         try: wrapper_no_false_alarm(rep)
         except Exception: rep.error('C01 wrapper_no_false_alarm: ' + traceback.format_exc()[-1500:])
